@@ -34,6 +34,7 @@ class P:
     realmap = {}      # real pid -> logical pid, for this process and its ancestors
     created = 0       # connections created by this process so far
     log = []          # [kind, connection] for every statement / close() this process issued
+    fail = None       # armed failure for the next Pool._connect: 'connect' (no connection object) | 'init' (initialisation raises)
 
 def p_reset():
     P.me = 0; P.realmap = {os.getpid(): 0}; P.created = 0; P.log = []
@@ -46,9 +47,13 @@ def canon(con):
 
 class TrackCon(sqlite3.Connection):
     def __init__(self, *a, **k):
+        if P.fail == 'connect':
+            P.fail = None; raise sqlite3.OperationalError('injected: the connection cannot be opened')
         super().__init__(*a, **k)
         self.tag = (os.getpid(), P.created); P.created += 1
     def execute(self, sql, *a):
+        if P.fail == 'init' and sql.upper().startswith('PRAGMA'):
+            P.fail = None; raise sqlite3.OperationalError('injected: initialisation of the new connection fails')
         if sql == MARK: P.log.append(['stmt', canon(self)])
         return super().execute(sql, *a)
     def rollback(self):
@@ -97,10 +102,14 @@ def interp(kind, events, path):
             _, actor, act = ev
             if actor != P.me: continue
             try:
-                if act == 'connect':
+                if act in ('connect', 'connectFail', 'connectInitFail'):
                     assert held is None          # SessionCache.connect: `assert cache.connection is None`
-                    con, is_new = pool.connect(); held = con
-                    obs.append(['connect', canon(con), bool(is_new)])
+                    # failure oracle for pool._connect(): raises only if _connect is actually reached by this call
+                    P.fail = None if act == 'connect' else 'connect' if (act == 'connectFail' or kind == 'base') else 'init'
+                    try: con, is_new = pool.connect()
+                    finally: P.fail = None
+                    held = con
+                    obs.append([act, canon(con), bool(is_new)])
                 elif act == 'stmt':
                     try:
                         if held is not None: held.execute(MARK)
@@ -139,7 +148,7 @@ def model_reports(out):
     conns = {}
     def see(c):
         if c is not None: conns.setdefault(c[1], set()).add(c[0])
-    for p, c in out['returned']: see(c)
+    for p, c in out['returned'] + out['closed']: see(c)
     rank = {}
     for creator, serials in conns.items():
         for i, s in enumerate(sorted(serials)): rank[(s, creator)] = [creator, i]
@@ -157,8 +166,9 @@ def model_fill(reps, cn, events, out):
         r = reps.get(str(actor))
         if r is None or not o: continue
         o = o[0]
-        if act == 'connect':
-            r['obs'].append(['connect', 'AssertionError'] if o['assertError'] else ['connect', 'AttributeError'] if o['attrError'] else ['connect', cn(o['returned']), o['isNew']])
+        if act.startswith('connect'):
+            r['obs'].append([act, 'AssertionError'] if o['assertError'] else [act, 'AttributeError'] if o['attrError'] else
+                            [act, 'OperationalError'] if o['failed'] else [act, cn(o['returned']), o['isNew']])
         else:
             r['obs'].append([act, 'AssertionError' if o['assertError'] else 'ok'])
         for c in o['stmts']: r['log'].append(['stmt', cn(c)])
@@ -174,10 +184,10 @@ def random_script(rng, maxlen):
         else:
             # mostly disciplined sessions (connect ... release), sometimes anything
             if rng.random() < 0.75:
-                act = rng.choice(['stmt', 'stmt', 'release', 'release', 'drop']) if held[p] else rng.choice(['connect', 'connect', 'connect', 'disconnect'])
-            else: act = rng.choice(['connect', 'stmt', 'release', 'drop', 'disconnect'])
+                act = rng.choice(['stmt', 'stmt', 'release', 'release', 'drop']) if held[p] else rng.choice(['connect', 'connect', 'connect', 'connectFail', 'connectInitFail', 'disconnect'])
+            else: act = rng.choice(['connect', 'connectFail', 'connectInitFail', 'stmt', 'release', 'drop', 'disconnect'])
             evs.append(['act', p, act])
-            if act == 'connect': held[p] = True
+            if act == 'connect': held[p] = True      # (a failing connect leaves nothing checked out; one that finds a pooled connection is rare enough)
             elif act in ('release', 'drop'): held[p] = False
     return evs
 
@@ -188,19 +198,27 @@ FIXED = [
     [['act', 0, 'connect'], ['act', 0, 'release'], ['fork', 0], ['act', 1, 'disconnect'], ['act', 1, 'connect'], ['act', 0, 'connect']],
     [['act', 0, 'connect'], ['act', 0, 'release'], ['fork', 0], ['act', 1, 'connect'], ['fork', 1], ['act', 2, 'connect'], ['act', 2, 'drop'], ['act', 1, 'release'], ['act', 2, 'connect'], ['act', 0, 'disconnect'], ['act', 0, 'connect']],
     [['act', 0, 'connect'], ['act', 0, 'drop'], ['act', 0, 'connect'], ['act', 0, 'connect'], ['act', 0, 'release'], ['act', 0, 'release'], ['act', 0, 'disconnect'], ['act', 0, 'disconnect']],
+    # the child's FIRST connection attempt fails inside pool._connect(), then it retries
+    [['act', 0, 'connect'], ['act', 0, 'release'], ['fork', 0], ['act', 1, 'connectFail'], ['act', 1, 'connect'], ['act', 1, 'stmt'], ['act', 1, 'release'], ['act', 0, 'connect'], ['act', 0, 'stmt'], ['act', 0, 'release']],
+    [['act', 0, 'connect'], ['act', 0, 'release'], ['fork', 0], ['act', 1, 'connectInitFail'], ['act', 1, 'connectFail'], ['act', 1, 'connect'], ['act', 1, 'stmt'], ['act', 1, 'drop'], ['act', 0, 'connect']],
+    [['act', 0, 'connectFail'], ['act', 0, 'connectInitFail'], ['act', 0, 'connect'], ['act', 0, 'release'], ['act', 0, 'connectFail'], ['act', 0, 'stmt'], ['act', 0, 'release'], ['fork', 0], ['act', 1, 'connectInitFail'], ['act', 1, 'disconnect'], ['act', 1, 'connect']],
 ]
 
 def foreign_connect(real):
     for p, r in sorted(real.items()):
         for o in r.get('obs', []):
-            if o[0] == 'connect' and isinstance(o[1], list) and str(o[1][0]) != p: return p, o
+            if o[0].startswith('connect') and isinstance(o[1], list) and str(o[1][0]) != p: return p, o
     return None
 
 MINIMAL = [['act', 0, 'connect'], ['act', 0, 'release'], ['fork', 0], ['act', 1, 'connect']]
 
+MINIMAL_RETRY = [['act', 0, 'connect'], ['act', 0, 'release'], ['fork', 0], ['act', 1, 'connectFail'], ['act', 1, 'connect']]
+MINIMAL_RETRY2 = [['act', 0, 'connect'], ['act', 0, 'release'], ['fork', 0], ['act', 1, 'connectInitFail'], ['act', 1, 'connect']]
+
 def shrink(kind, script, path):
     """smallest script (canonical minimal one first, then greedy deletion of events) on which the real pool still hands a foreign connection out"""
-    if foreign_connect(interp(kind, MINIMAL, path)): return MINIMAL
+    for m in (MINIMAL, MINIMAL_RETRY, MINIMAL_RETRY2):
+        if foreign_connect(interp(kind, m, path)): return m
     cur = list(script); budget = 25
     i = 0
     while i < len(cur) and budget > 0:
@@ -244,6 +262,14 @@ def pool_tie(ctx, work):
         if any(q['forked'] for q in out['procs']): ctx.count('tie:branch:parked-inherited-connection')
         if any(e[1][1] != e[0] for e in out['closed']): ctx.count('tie:branch:foreign-close')
         if any(e[1][1] != e[0] for e in out['stmts']): ctx.count('tie:branch:foreign-stmt')
+        fl = [o[0] for ev, o in zip(script, out['outs']) if ev[0] == 'act' and o and o[0].get('failed')]
+        if fl: ctx.count('tie:branch:connect-failed')
+        if any(o['closed'] for o in fl): ctx.count('tie:branch:connect-failed-after-creation(closed)')
+        if any(ev[0] == 'act' and ev[2] != 'connect' and ev[2].startswith('connect') and o and o[0].get('returned') for ev, o in zip(script, out['outs'])): ctx.count('tie:branch:failure-armed-but-pooled-connection-reused')
+        stale_fail = False
+        for j, ev in enumerate(script):
+            if ev[0] == 'act' and ev[2] in ('connectFail', 'connectInitFail') and out['outs'][j] and out['outs'][j][0].get('failed') and any(e[0] == 'act' and e[1] == ev[1] and e[2] == 'connect' for e in script[j + 1:]) and ev[1] != 0: stale_fail = True
+        if stale_fail: ctx.count('tie:branch:child-connect-fails-then-retries')
         if real != reps:
             bad = sorted(k for k in set(real) | set(reps) if real.get(k) != reps.get(k))
             ctx.divergence('pool model and the real pool under os.fork() disagree', {'kind': kind, 'events': script, 'process': bad[0]},
@@ -273,11 +299,16 @@ class OCur(sqlite3.Cursor):
         return super().executemany(sql, *a)
 
 class OCon(sqlite3.Connection):
+    fail_next = [None]      # 'connect' | 'init': injected failure of the next connection attempt in this process
     def __init__(self, *a, **k):
+        if OCon.fail_next[0] == 'connect':
+            OCon.fail_next[0] = None; raise sqlite3.OperationalError('injected: the connection cannot be opened')
         super().__init__(*a, **k); self.creator = os.getpid()
         LOG.append(['CREATE', os.getpid(), self.creator, id(self)])
     def cursor(self, factory=OCur): return super().cursor(factory)
     def execute(self, sql, *a):
+        if OCon.fail_next[0] == 'init' and sql.upper().startswith('PRAGMA'):
+            OCon.fail_next[0] = None; raise sqlite3.OperationalError('injected: initialisation of the new connection fails')
         LOG.append([sql.split()[0].upper(), os.getpid(), self.creator, id(self)]); return super().execute(sql, *a)
     def commit(self):
         LOG.append(['COMMIT()', os.getpid(), self.creator, id(self)]); return super().commit()
@@ -290,7 +321,9 @@ def fork_point_run(ctx, work, point, child_mode, n):
     """one real run: parent reaches `point`, forks; the child works in db_sessions of its own; both report"""
     path = os.path.join(work, 'fp-%s-%s-%d.sqlite' % (point, child_mode, n))
     del LOG[:]
-    db = Database('sqlite', path, create_db=True, factory=OCon)
+    OCon.fail_next[0] = None
+    if child_mode == 'file-missing-first': sqlite3.connect(path).close()      # bound with create_db=False: a missing file is an error
+    db = Database('sqlite', path, create_db=(child_mode != 'file-missing-first'), factory=OCon)
     class T(db.Entity):
         v = Required(int)
     db.generate_mapping(create_tables=True)
@@ -304,6 +337,17 @@ def fork_point_run(ctx, work, point, child_mode, n):
             os.close(r1); os.close(w2)
             n0 = len(LOG)
             if child_mode == 'disconnect-first': db.disconnect()
+            if child_mode in ('first-connect-fails', 'first-init-fails', 'file-missing-first'):
+                # the child's FIRST connection attempt raises inside pool._connect(); afterwards it works normally (retry)
+                if child_mode == 'file-missing-first': os.rename(path, path + '.moved')
+                else: OCon.fail_next[0] = 'connect' if child_mode == 'first-connect-fails' else 'init'
+                try:
+                    with db_session: select(t.v for t in T)[:]
+                    out['first_attempt'] = 'did not fail'
+                except Exception as e: out['first_attempt'] = type(e).__name__
+                finally:
+                    OCon.fail_next[0] = None
+                    if child_mode == 'file-missing-first': os.rename(path + '.moved', path)
             with db_session:
                 out['seen1'] = sorted(select(t.v for t in T)[:])
                 if point != 'open': T(v=100)    # (inside the inherited open session the child only reads: nothing is written through the parent's connection)
@@ -370,7 +414,9 @@ def fork_point_run(ctx, work, point, child_mode, n):
     # ---- judge
     inp = {'fork_point': point, 'child': child_mode, 'database': 'file-backed SQLite', 'parent_before_fork':
            {'idle': 'db.disconnect() (no connection)', 'pooled': 'one finished db_session (connection in the pool)', 'open': 'inside db_session after T(v=2); flush()'}[point],
-           'child_program': ('db.disconnect(); ' if child_mode == 'disconnect-first' else '') + 'with db_session: select(t.v for t in T)[:]; T(v=100)  ...  with db_session: select(...)'}
+           'child_program': {'disconnect-first': 'db.disconnect(); ', 'first-connect-fails': 'FIRST SESSION FAILS (sqlite3.connect raises once inside pool._connect()); then: ',
+                             'first-init-fails': 'FIRST SESSION FAILS (initialisation of the new connection raises once); then: ',
+                             'file-missing-first': 'FIRST SESSION FAILS (database file renamed away: "Database file is not found"; renamed back); then: '}.get(child_mode, '') + 'with db_session: select(t.v for t in T)[:]; T(v=100)  ...  with db_session: select(...)'}
     ctx.case(['fork-point', point, child_mode, n], kind='oracle:fork-point:%s:%s' % (point, child_mode))
     clog = c.get('log', [])
     foreign = [e for e in clog if e[2] != c.get('pid')]
@@ -383,7 +429,10 @@ def fork_point_run(ctx, work, point, child_mode, n):
         ctx.violation('after a fork %s the child issues statements on the connection its parent opened (the pid test is in Pool.connect only; a session that already holds a connection never calls it)' % inp['parent_before_fork']
                       if point == 'open' else 'a session in the forked child issues statements on a connection the parent opened',
                       inp, observed=[[e[0], 'executed by child', 'connection created by parent'] for e in foreign_stmt][:6], expected='every statement of the child on a connection the child created', key=key)
-    if foreign_close and child_mode == 'sessions-only':
+    if child_mode in ('first-connect-fails', 'first-init-fails', 'file-missing-first'):
+        ctx.count('child-first-attempt:%s:%s' % (child_mode, c.get('first_attempt')))
+        if c.get('first_attempt') == 'did not fail': ctx.note('fork point %s / %s: the injected failure did not make the first session fail' % (point, child_mode))
+    if foreign_close and child_mode != 'disconnect-first':
         ctx.violation('a forked child that only opens sessions of its own calls close() on a connection object created by the parent (for a socket-based provider this terminates the parent\'s server session)',
                       inp, observed=foreign_close[:3], expected='the inherited connection is parked in Pool.forked_connections, never closed', key='fork:%s:child-closes-parent-connection' % point)
     if foreign_close and child_mode == 'disconnect-first':
@@ -401,7 +450,7 @@ def fork_point_run(ctx, work, point, child_mode, n):
         got = {'seen1': c.get('seen1'), 'parent_sees_after_child_commit': res.get('parent_sees_after_child_commit'), 'seen2': c.get('seen2'), 'final': res.get('final')}
         if got != exp:
             ctx.violation('rows committed by one process are not seen by the other', inp, observed=got, expected=exp, key='fork:%s:%s:visibility' % (point, child_mode))
-        if point == 'pooled' and child_mode == 'sessions-only' and c.get('forked') != [[parent, parent]]:
+        if point == 'pooled' and child_mode != 'disconnect-first' and c.get('forked') != [[parent, parent]]:
             ctx.violation('the inherited connection was not parked in forked_connections', inp, observed=c.get('forked'), expected=[['parent pid', 'parent pid']], key='fork:pooled:not-parked')
     if point == 'open':
         ctx.extra.setdefault('open_txn_observation', {'child_seen_in_inherited_session': c.get('seen1'), 'parent_final': res.get('final'), 'child_error': c.get('error')})
@@ -430,8 +479,9 @@ def run(ctx):
         n = 0
         for rep in range(ctx.scale(1, 4)):
             for point in ('idle', 'pooled', 'open'):
-                for mode in ('sessions-only', 'disconnect-first'):
-                    if point == 'open' and mode == 'disconnect-first': continue     # db.disconnect() is refused inside db_session
+                for mode in ('sessions-only', 'disconnect-first', 'first-connect-fails', 'first-init-fails', 'file-missing-first'):
+                    if point == 'open' and mode != 'sessions-only': continue     # db.disconnect() is refused inside db_session; the inherited session never reconnects
+                    if point == 'idle' and mode in ('first-init-fails', 'file-missing-first') and not ctx.thorough: continue
                     try:
                         try:
                             fork_point_run(ctx, work, point, mode, n)
